@@ -165,6 +165,13 @@ func probes() pbt.Probes {
 				return strings.Join(hits, "; ")
 			},
 		},
+		findingAliasTypename: {
+			Input: probeInput{probeSDL, `{ me { k: __typename name } }`, `{"me":{"k":"Nope","name":"x"}}`},
+			Fn: outputProbes(
+				outputProbe{probeInput{probeSDL, `{ me { k: __typename name } }`, `{"me":{"k":"Nope","name":"x"}}`}, `{"errors":[{"message":"invalid __typename"}],"data":{"me":null}}`},
+				outputProbe{probeInput{probeSDL, `{ me { k: __typename name } }`, `{"me":{"k":"","name":"x"}}`}, `{"errors":[{"message":"invalid __typename"}],"data":{"me":null}}`},
+			),
+		},
 		findingPanic: {
 			Input: probeInput{probeSDL, `{ m }`, `{"m":[["a",null]]}`},
 			Fn: func() string {
